@@ -203,6 +203,7 @@ class SuiteResult:
         self.stats = {}
         self.model_div = None   # (case ops, line idx in case, impl, model)
         self.spec_div = None
+        self.spec_fails = []      # every FAIL verdict of a spec_on_impl run (known findings are matched per verdict)
         self.oracle_failures = []
         self.errors = []
         self.cases = 0
@@ -265,8 +266,12 @@ def run_suite(harness, suite, seed, tier, scratch, replay=None, extra_args=None)
             for i, ln in enumerate(sout[:len(ops)]):
                 if ln.startswith("FAIL"):
                     s, e = case_of_line(ops, i)
-                    res.spec_div = dict(ops=ops[s:e], at=i - s, impl=impl[s:e], other=sout[s:e], kind="spec")
-                    break
+                    d = dict(ops=ops[s:e], at=i - s, impl=impl[s:e], other=sout[s:e], kind="spec")
+                    if res.spec_div is None:
+                        res.spec_div = d
+                    res.spec_fails.append(d)
+                    if len(res.spec_fails) >= 200:
+                        break
         else:
             i = first_divergence(ops, impl, sout[:len(impl)] if len(sout) >= len(impl) else sout)
             if i is not None:
@@ -358,6 +363,11 @@ def matches_known(known, suite_name, div):
         if sig.get("ops_regex") and not re.search(sig["ops_regex"], text, re.M):
             continue
         if sig.get("obs_regex") and not re.search(sig["obs_regex"], obs, re.M):
+            continue
+        at = div.get("at", 0)
+        if sig.get("line_regex") and not (at < len(div["ops"]) and re.search(sig["line_regex"], div["ops"][at])):
+            continue
+        if sig.get("fail_regex") and not (at < len(div.get("other") or []) and re.search(sig["fail_regex"], div["other"][at])):
             continue
         return k
     return None
@@ -476,17 +486,22 @@ def _main(prop, cfg, tier, seed, args, scratch, t0):
     def handle(suite, res, label):
         for e in res.errors:
             broken.append(("correspondence", "[%s] %s" % (suite["name"], e)))
-        for kind, div in (("spec", res.spec_div), ("model", res.model_div)):
-            if div is None:
-                continue
+        # every spec verdict is matched against the open known findings; the first one that no
+        # finding lists is the violation
+        fails = res.spec_fails or ([res.spec_div] if res.spec_div is not None else [])
+        for div in fails:
             k = matches_known(known, suite["name"], div)
             if k is not None:
                 known_hits[k["id"]] = k
                 continue
-            if kind == "spec":
-                violations.append(dict(suite=suite["name"], div=div, label=label))
+            violations.append(dict(suite=suite["name"], div=div, label=label))
+            break
+        if res.model_div is not None:
+            k = matches_known(known, suite["name"], res.model_div)
+            if k is not None:
+                known_hits[k["id"]] = k
             else:
-                broken.append(("correspondence", "[%s] model and implementation disagree" % suite["name"], div))
+                broken.append(("correspondence", "[%s] model and implementation disagree" % suite["name"], res.model_div))
         for of in res.oracle_failures:
             fake = dict(ops=of.get("ops") or [of.get("what", "")], impl=[of.get("what", "")], kind="oracle", at=0, other=[])
             k = matches_known(known, suite["name"], fake)
@@ -557,8 +572,10 @@ def _main(prop, cfg, tier, seed, args, scratch, t0):
             with ThreadPoolExecutor(max_workers=6) as ex:
                 results = list(ex.map(lambda s: run_suite(harness, dict(suite, model=None), s, "quick", scratch), seeds))
             for sd, res in zip(seeds, results):
-                if res.spec_div is not None and matches_known(known, suite["name"], res.spec_div) is None:
-                    violations.append(dict(suite=suite["name"], div=res.spec_div, label="search seed=%d" % sd))
+                for d in (res.spec_fails or ([res.spec_div] if res.spec_div is not None else [])):
+                    if matches_known(known, suite["name"], d) is None:
+                        violations.append(dict(suite=suite["name"], div=d, label="search seed=%d" % sd))
+                        break
                 for of in res.oracle_failures:
                     violations.append(dict(suite=suite["name"], div=dict(ops=[of.get("what", "")], impl=[], other=[], at=0, kind="oracle"), label="search", oracle=of))
             if violations:
